@@ -19,10 +19,15 @@ func (f *Frame) props() []string {
 
 func (f *Frame) nopanic(label, guard, goal string, pos token.Pos) {
 	g := f.g
-	if g.contract == nil || !g.contract.NoPanic {
-		return
+	if g.contract != nil && g.contract.NoPanic {
+		g.oblige("nopanic", label, f.props(), f.fn, guard, goal, "", pos)
 	}
-	g.oblige("nopanic", label, f.props(), f.fn, guard, goal, "", pos)
+	// execution continues past this point only if the instruction did not panic
+	if goal != "false" {
+		g.assume(implies(guard, goal))
+	} else {
+		g.assume(not(guard))
+	}
 }
 
 func (f *Frame) instr(b *ssa.BasicBlock, ins ssa.Instruction, st *State) {
